@@ -290,15 +290,49 @@ struct Candidate { long long run, sub; bool crash; int phase; Outcome out; bool 
 int replay_main(const std::string &path, bool quiet) {
   Json j = Json::parse(read_file(path));
   Plan p = plan_from_json(j.has("plan") ? j.at("plan") : j);
+  std::string want_oracle = j.str("oracle"), want_hash = j.str("event_log_hash");
   if (!quiet) fprintf(stderr, "replaying %s: property %s, world %s, seed %llu run %lld sub %lld\n", path.c_str(), p.prop.c_str(), p.world.c_str(), (unsigned long long)p.seed, p.run, p.sub);
-  int slot = 0; g_phase_slot = &slot;
-  Outcome o = exec_plan(p, !quiet);
-  printf("%s\n", o.to_line().c_str());
-  if (o.violated) {
-    printf("VIOLATION property=%s replay=%s\n", o.prop.c_str(), path.c_str());
-    if (!quiet) fprintf(stderr, "violation of %s (%s): %s\n", o.prop.c_str(), o.oracle.c_str(), o.msg.c_str());
+  // the plan runs in a child so that a crash-class violation is reported instead of taking the replayer down
+  int pfd[2];
+  if (pipe(pfd) != 0) return 2;
+  int *slot = (int *)mmap(nullptr, sizeof(int), PROT_READ | PROT_WRITE, MAP_SHARED | MAP_ANONYMOUS, -1, 0);
+  *slot = 0;
+  std::string errfile = "build/replay." + std::to_string(getpid()) + ".err";
+  fflush(stdout); fflush(stderr);
+  pid_t pid = fork();
+  if (pid == 0) {
+    close(pfd[0]);
+    g_phase_slot = slot;
+    if (quiet) { int fd = open(errfile.c_str(), O_WRONLY | O_CREAT | O_TRUNC, 0644); if (fd >= 0) { dup2(fd, 2); close(fd); } }
+    Outcome o = exec_plan(p, !quiet);
+    std::string line = o.to_line() + "\n";
+    ssize_t w = write(pfd[1], line.data(), line.size()); (void)w;
+    _exit(0);
+  }
+  close(pfd[1]);
+  std::string buf; char tmp[65536]; ssize_t n;
+  while ((n = read(pfd[0], tmp, sizeof tmp)) > 0) buf.append(tmp, (size_t)n);
+  close(pfd[0]);
+  int st = 0; waitpid(pid, &st, 0);
+  ChildResult c; c.status = st; c.phase = *slot;
+  munmap(slot, sizeof(int));
+  if (!(WIFEXITED(st) && WEXITSTATUS(st) == 0) || buf.empty()) {
+    c.crashed = true;
+    if (quiet) { try { std::string e = read_file(errfile); c.err = crash_headline(e); c.site = crash_site(e); } catch (...) {} }
+  } else c.out = Outcome::from_line(buf.substr(0, buf.find('\n')));
+  unlink(errfile.c_str());
+  Verdict v = verdict_of(c, p.prop);
+  if (!c.crashed) printf("%s\n", c.out.to_line().c_str());
+  if (v.bad) {
+    bool same_class = want_oracle.empty() || want_oracle == v.oracle || (c.crashed && !quiet && want_oracle.rfind(std::string("crash:") + phase_name(c.phase), 0) == 0);
+    bool same_hash = c.crashed || want_hash.empty() || want_hash == hex64(v.hash);
+    printf("VIOLATION property=%s replay=%s\n", v.prop.c_str(), path.c_str());
+    fprintf(stderr, "violation of %s (%s): %s\n%s\n", v.prop.c_str(), v.oracle.c_str(), v.msg.c_str(),
+            same_class && same_hash ? "reproduced: same oracle and same event-log hash as recorded" : same_class ? "same oracle as recorded, but a different event-log hash (the code under test changed?)" : "a different oracle than recorded fails now");
     return 1;
   }
+  if (c.crashed) { fprintf(stderr, "the replay died outside a library phase (%s): %s\n", phase_name(c.phase), c.err.c_str()); return 2; }
+  if (!quiet) fprintf(stderr, "no violation: the property held on this plan%s\n", want_oracle.empty() ? "" : (" (recorded: " + want_oracle + ")").c_str());
   return 0;
 }
 
